@@ -12,6 +12,23 @@ def run(tier):
     g.allow_unknown_p = 0.06
     nvalid, nfault = (500, 300) if tier == "quick" else (14000, 8000)
     items = [xgen.gen(g) for _ in range(nvalid)] + multi_fault_items(g, nfault, 1, 3)
+    # under #[o2o(allow_unknown)] a bare instruction o2o cannot place (it may be somebody else's attribute) is tolerated; it stays bare in every
+    # variant (it has no other spelling) while everything around it is re-spelled: tolerance must not depend on how the *other* instructions are written
+    from vlib.model import Instr
+    for _ in range(nvalid // 5):
+        it = xgen.gen(g)
+        it.attrs = [a for a in it.attrs if a.kind != "allow_unknown"]
+        it.attrs.insert(0, Instr("allow_unknown", "allow_unknown"))
+        stray_type = g.pick(["ghost({k()})", "parent(x, y)", "child(p)", "literal(1)", "as_type(i64)"])
+        stray_member = g.pick(["where_clause(T: Clone)", "child_parents(p: T)", "ghosts(g: {k()})"])
+        if g.chance(0.5):
+            it.attrs.insert(g.r.randint(1, len(it.attrs)), Instr("foreign", "foreign", text=stray_type))
+        members = it.fields if it.kind == "struct" else it.variants
+        if members and g.chance(0.6):
+            m = g.pick(members)
+            m.attrs.insert(g.r.randint(0, len(m.attrs)), Instr("foreign", "foreign", text=stray_member))
+        it.meta["tolerated_strays"] = True
+        items.append(it)
     modes = ["bare", "o2o", "grouped", "mixed", "mixed"]
     variants = [[xform.respell(it, g, m) for m in modes] for it in items]
     srcs = [v.render() for vs in variants for v in vs]
